@@ -43,7 +43,8 @@ def teams(tier):
                         yield {"kind": "teamlim", "L": L, "alap": alap, "m": m, "lim": lim, "where": where}
                 for k in range(0, 5):
                     for eff2 in (1.0, 0.5):
-                        yield {"kind": "alt", "L": L, "alap": alap, "m": m, "k": k, "eff2": eff2}
+                        for nalt in (1, 2):
+                            yield {"kind": "alt", "L": L, "alap": alap, "m": m, "k": k, "eff2": eff2, "nalt": nalt}
 
 
 def team_blockers(tier):
@@ -121,8 +122,8 @@ def to_spec(it):
         tasks = []
         if it["k"]:
             tasks.append({"id": "busy", "effort": L * it["k"], "alloc": ["r1"], "prio": 900})
-        tasks.append({"id": "x", "effort": it["m"], "alloc": ["r1"], "alt": ["r2"]})
-        base.update(resources=[{"id": "r1"}, {"id": "r2", "eff": it["eff2"]}], tasks=tasks)
+        tasks.append({"id": "x", "effort": it["m"], "alloc": ["r1"], "alt": ["r2"] if it.get("nalt", 1) == 1 else ["r2", "r3"]})
+        base.update(resources=[{"id": "r1"}, {"id": "r2", "eff": it["eff2"]}, {"id": "r3", "eff": it["eff2"]}], tasks=tasks)
     return base
 
 
